@@ -318,10 +318,30 @@ HOLDERS = [
     Rule("holder.reset", r'\b(U1|U2|T1|mv|mu|em)\.reset\s*\(', r'holder_reset(\1,'),
     Rule("holder.use", r'(?<![\w.>&])(U1|U2|T1)(?=\s*[,)])', r'(&\1->m)'),
 ]
+PADE_B = [
+    Rule("pade.b", r'std::vector<double>\s+b\s*\{([^}]*)\}\s*;', r'const R b[]={\1};', min=1),
+]
+PADE = [
+    Rule("pade.holder.decl", r'SQUIDS_THREAD_LOCAL\s+gsl_matrix_complex_holder\s+(\w+)\s*;', r'struct holder* \1=&\1_;'),
+    Rule("pade.holder.reset", r'\b(tmp|A8|B|id|U|V|A2|A4|A6)\.reset\s*\(', r'holder_reset(\1,'),
+    Rule("pade.holder.use", r'(?<![\w.>&])(tmp|A8)(?=\s*[,)])', r'(&\1->m)'),
+]
+EXPM_TAIL = [
+    Rule("tail.holder.use", r'(?<![\w.>&])(B|U|V|id|A2|A4|A6)(?=\s*[,)])', r'(&\1->m)', min=1),
+    Rule("tail.ceil_log2", r'std::ceil\s*\(\s*log\s*\(([^()]*)\)\s*/\s*M_LN2\s*\)', r'sq_ceil_log2(\1)', min=1),
+    Rule("tail.max.int", r'std::max\s*\(\s*u\s*,\s*0\s*\)', r'sq_imax(u,0)', min=1),
+    Rule("tail.max", r'std::max\s*\(', r'sq_max('),
+    Rule("tail.min", r'std::min\s*\(', r'sq_min('),
+    Rule("tail.pow", r'(?<![\w.>])pow\s*\(', r'sq_pow('),
+]
 
 RULESETS = {
     "common": COMMON,
     "holders": HOLDERS,
+    "pade": PADE,
+    "padeb": PADE_B,
+    "expm_tail": EXPM_TAIL,
+    "expm_head": [EXPM_TAIL[0]] + EXPM_TAIL[3:],
     "squids_c05": SQUIDS_C05,
     "squids_forms": SQUIDS_FORMS,
     "squids_members": [members_rule("squids", SQUIDS_MEMBERS)],
@@ -421,6 +441,26 @@ def instantiate(template_text, report=None, defines=None):
                     text = apply_rules(ini, RULESETS["ctor_init"], fired, ctx) + '\n' + bod
                 else:
                     text = cut.body if part == 'body' else cut.init
+                    # from=/re/ and until=/re/ cut a contiguous statement range out of the body (each regex must match exactly once;
+                    # the range starts at the match of `from` and ends just before the match of `until`); braces must balance in the range
+                    for key in ('from', 'until'):
+                        if key in kv:
+                            ms = list(re.finditer(kv[key], text))
+                            if len(ms) != 1:
+                                raise ExtractionError("%s: %s=/%s/ matched %d times (must be exactly 1)" % (ctx, key, kv[key], len(ms)))
+                            text = text[ms[0].start():] if key == 'from' else text[:ms[0].start()]
+                            if text.startswith('{') and key == 'from':
+                                pass
+                    if ('from' in kv or 'until' in kv):
+                        t2 = text.strip()
+                        if 'from' not in kv and t2.startswith('{'):
+                            t2 = t2[1:]
+                        if 'until' not in kv and t2.endswith('}'):
+                            t2 = t2[:-1]
+                        if t2.count('{') != t2.count('}'):
+                            raise ExtractionError("%s: from/until range does not have balanced braces" % ctx)
+                        text = t2 if kv.get('braces') == '0' else '{' + t2 + '}'     # braces=0: the statements join the enclosing template block
+                        fired['range.cut'] = fired.get('range.cut', 0) + 1
                     text = apply_rules(text, subs, fired, ctx)   # specific rules first (they see the C++ text)
                 text = apply_rules(text, rules, fired, ctx)
                 if loops:
